@@ -13,9 +13,9 @@ from .wire import Reply, Renderer, parse_command, parse_string_line, OK, ERROR, 
 
 
 # fault kinds (value 0 = none)
-F_NONE, F_NO, F_BYE, F_SILENT, F_CLOSE, F_LOST_SILENT, F_LOST_CLOSE, F_TRUNC = range(8)
+F_NONE, F_NO, F_BYE, F_SILENT, F_CLOSE, F_LOST_SILENT, F_LOST_CLOSE, F_TRUNC, F_RESET, F_LOST_RESET = range(10)
 FAULT_NAMES = ("none", "NO", "BYE", "silence", "close", "applied+silence",
-               "applied+close", "truncated-reply+close")
+               "applied+close", "truncated-reply+close", "reset", "applied+reset")
 
 TEXT_POOL = [
     b"done", b"", b"quota exceeded", b'say "hi"', b"back\\slash", b'\\"', b"(NOTACODE) x",
@@ -270,6 +270,14 @@ class SimServer:
             with self.ch.abs_scope(scope):
                 order = self.ch.srv.int("cap.order", 3)
                 case = self.ch.srv.weighted("cap.case", [3, 1, 1])
+                extra = self.ch.srv.weighted("cap.extra", [3, 1, 1, 1])
+            # capabilities this client does not know, some with names that contain the name of one it knows
+            if extra == 1:
+                caps = caps + [(b"NOTIFY", b"mailto"), (b"LANGUAGE", b"en"), (b"OWNER", b"user"), (b"XFOO", None)]
+            elif extra == 2:
+                caps = [(b"XSASL", b"PLAIN LOGIN DIGEST-MD5 OAUTHBEARER"), (b"SASL-IR", None), (b"STARTTLS-REQUIRED", None)] + caps + [(b"MAXREDIRECTS", b"5")]
+            elif extra == 3:
+                caps = caps[:1] + [(b"UNAUTHENTICATE", None), (b"RENAME", b"no"), (b"VERSIONS", b"9.9")] + caps[1:]
             if order == 1:
                 caps = caps[::-1]
             elif order == 2:
@@ -435,6 +443,12 @@ class SimServer:
             self._close(conn)
             rec.after = self.snapshot()
             return
+        if fault == F_RESET:
+            rec.status = None
+            self._close(conn)
+            conn.reset = True      # RST instead of FIN: recv raises ConnectionResetError
+            rec.after = self.snapshot()
+            return
 
         seg_before = len(conn.segments)
         handler = getattr(self, "_do_" + verb.decode("ascii").lower())
@@ -449,7 +463,7 @@ class SimServer:
             handler(conn, dec, rec, scope)
         rec.after = self.snapshot()
 
-        if fault in (F_LOST_SILENT, F_LOST_CLOSE, F_TRUNC):
+        if fault in (F_LOST_SILENT, F_LOST_CLOSE, F_TRUNC, F_LOST_RESET):
             # the command was applied; withdraw (part of) the reply
             segs = conn.segments[seg_before:]
             del conn.segments[seg_before:]
@@ -466,6 +480,8 @@ class SimServer:
                 st.closed = True
             else:
                 self._close(conn)
+                if fault == F_LOST_RESET:
+                    conn.reset = True
 
     # individual verbs -------------------------------------------------------
     def _do_capability(self, conn, dec, rec, scope):
